@@ -62,6 +62,14 @@ def main():
             lines = [l for l in out.splitlines() if l.startswith("VIOLATION") or l.strip().startswith("rule=")]
             meta["detection"][p] = {"exit": rc, "lines": lines[:6], "wall_s": round(time.time() - t0, 1)}
             print("detect %s with %s quick: exit=%d %s" % (name, p, rc, (lines[1].strip() if len(lines) > 1 else "")))
+            # the replay file must reproduce the violation in a fresh process (patch still applied)
+            for l in lines:
+                if l.startswith("VIOLATION") and "replay=" in l:
+                    rp = l.split("replay=")[1].strip()
+                    rrc, rout = sh("./check.sh replay %s" % rp, cwd="/verif")
+                    meta["detection"][p]["replay_exit"] = rrc
+                    print("  replay %s: exit=%d" % (os.path.basename(rp), rrc))
+                    break
     finally:
         sh("git -C /repo checkout -- .")
     rc, out = sh("git -C /repo status --porcelain")
